@@ -79,6 +79,39 @@ func hostEnvName(env native.Env, s string) string {
 	return s + ":" + env.CallPath()
 }
 
+// hostWhichK / hostOnlyK: members of the K-th variant of package "shadow" (the
+// same path supplied by several importers of a chain with different content).
+func hostWhich1() int { logCall("hostWhich1"); return 1 }
+func hostWhich2() int { logCall("hostWhich2"); return 2 }
+func hostWhich3() int { logCall("hostWhich3"); return 3 }
+func hostWhich4() int { logCall("hostWhich4"); return 4 }
+func hostOnly1() int  { logCall("hostOnly1"); return 11 }
+func hostOnly2() int  { logCall("hostOnly2"); return 12 }
+func hostOnly3() int  { logCall("hostOnly3"); return 13 }
+func hostOnly4() int  { logCall("hostOnly4"); return 14 }
+
+var hostWhich = []func() int{hostWhich1, hostWhich2, hostWhich3, hostWhich4}
+var hostOnly = []func() int{hostOnly1, hostOnly2, hostOnly3, hostOnly4}
+
+// variantPackage returns the package a chain link supplies for a path: variant
+// "" is the entry of allPackages; "1".."4" are the variants of "shadow"; "fake"
+// is a package with the last path element as name holding two supplied functions.
+func variantPackage(path, variant string) (native.Package, bool) {
+	switch variant {
+	case "":
+		pk, ok := allPackages()[path]
+		return pk, ok
+	case "1", "2", "3", "4":
+		k := int(variant[0] - '1')
+		return native.Package{Name: "shadow", Declarations: native.Declarations{
+			"Which": hostWhich[k], "Only" + variant: hostOnly[k]}}, true
+	case "fake":
+		name := path[strings.LastIndex(path, "/")+1:]
+		return native.Package{Name: name, Declarations: native.Declarations{"Double": hostDouble, "Touch": hostTouch}}, true
+	}
+	return native.Package{}, false
+}
+
 // hostApply calls the function value it receives: calls made through it are
 // initiated by the host, not by the VM.
 func hostApply(f func(int) int, x int) int {
@@ -200,6 +233,11 @@ func allPackages() map[string]native.Package {
 		"strings": {Name: "strings", Declarations: native.Declarations{"ToUpper": hostUpper, "Index": hostIndex}},
 		"os":      {Name: "os", Declarations: native.Declarations{"Getenv": hostGetenv}},
 		"example.com/deep/pkg": {Name: "pkg", Declarations: native.Declarations{"Double": hostDouble, "Touch": hostTouch}},
+		// packages whose name is not the last element of their path
+		"math/rand":          {Name: "rand", Declarations: native.Declarations{"Double": hostDouble, "Touch": hostTouch}},
+		"host.test/api/v2":   {Name: "api", Declarations: native.Declarations{"Double": hostDouble, "Touch": hostTouch}},
+		"gopkg.test/yaml.v3": {Name: "yaml", Declarations: native.Declarations{"Double": hostDouble, "Touch": hostTouch}},
+		"Mixed/Case":         {Name: "mixedcase", Declarations: native.Declarations{"Double": hostDouble, "Touch": hostTouch}},
 	}
 }
 
@@ -270,6 +308,69 @@ func (li loggingImporter) Import(path string) (native.ImportablePackage, error) 
 // Packages map and a logging importer, the supplied paths split between them),
 // "custom" (logging importer), "customerr" (logging importer that returns an
 // error for unknown paths).
+// linkImporter builds the importer of one chain link.
+func linkImporter(i int, l link) native.Importer {
+	if len(l.Nested) > 0 {
+		var ci native.CombinedImporter
+		for j, n := range l.Nested {
+			ci = append(ci, linkImporter(i*10+j, n))
+		}
+		return ci
+	}
+	pkgs := map[string]native.Package{}
+	for p, v := range l.Pkgs {
+		if pk, ok := variantPackage(p, v); ok {
+			pkgs[p] = pk
+		}
+	}
+	if l.Type == "packages" {
+		pp := native.Packages{}
+		for p, pk := range pkgs {
+			pp[p] = pk
+		}
+		return pp
+	}
+	return chainLinkImporter{pkgs: pkgs, errs: l.Err, msg: l.errMsg}
+}
+
+// chainLinkImporter is a custom importer: a package for some paths, an error for
+// others (a policy / deny importer), (nil, nil) otherwise. It logs every request.
+type chainLinkImporter struct {
+	pkgs map[string]native.Package
+	errs []string
+	msg  func(path string) string
+}
+
+func (li chainLinkImporter) Import(path string) (native.ImportablePackage, error) {
+	ev := importEvent{Path: path, Answer: "nil"}
+	var p native.ImportablePackage
+	var err error
+	if pk, ok := li.pkgs[path]; ok {
+		p, ev.Answer = pk, "pkg"
+	} else {
+		for _, e := range li.errs {
+			if e == path {
+				err, ev.Answer = fmt.Errorf("%s", li.msg(path)), "error"
+			}
+		}
+	}
+	importLog.Lock()
+	importLog.events = append(importLog.events, ev)
+	importLog.Unlock()
+	return p, err
+}
+
+func makeChainImporter(chain []link) native.Importer {
+	var ci native.CombinedImporter
+	for i, l := range chain {
+		ci = append(ci, linkImporter(i, l))
+	}
+	if len(ci) == 1 {
+		return ci[0]
+	}
+	return ci
+}
+
 func makeImporter(kind string, paths []string) native.Importer {
 	table := allPackages()
 	sel := map[string]native.Package{}
